@@ -43,7 +43,8 @@ META = {
                  'doCache=False factories; CacheFactory.clear(); tryGet(); per-instance _SO_writeLock (never taken '
                  'while the cache lock is held, so it cannot take part in a lock cycle with it)',
                  'threading.Lock, sqlite3 (executed, not verified)'],
-    'assumptions': ['cullFraction >= 1 (the configuration constant is 2; 0 makes range() raise ValueError)',
+    'assumptions': ['the partial theorems are proved for programs without create; programs with create but without a concurrent expireAll / get of the created id are covered by the schedule-controlled replay only (sampling), not by a theorem',
+                    'cullFraction >= 1 (the configuration constant is 2; 0 makes range() raise ValueError)',
                     'the attribute load `self.cache` and the dict operation on it form one action (true for CPython 3.12: '
                     'no eval-breaker check between LOAD_ATTR and the subscript)'],
     'exhaustive': False,
@@ -277,6 +278,12 @@ class ICaches(dict):
         if not dict.__contains__(self, k):
             self.s.point('caches')
         return dict.setdefault(self, k, v)
+
+    def __setitem__(self, k, v):
+        # not used by the current code (setdefault fix); a plain store is a write, hence always a shared
+        # access: this is what lets a reverted fix (two racing `self.caches[name] = CacheFactory()`) show up
+        self.s.point('caches')
+        dict.__setitem__(self, k, v)
 
 
 _env = {}
@@ -931,11 +938,18 @@ def replay(case):
     return not fails, '\n'.join(text)
 
 
-META['level_text'] = ('Theorems for every schedule (List Tid), any number of threads, any programs: mutual exclusion + '
-                      'lock-holder knowledge invariant, progress (no deadlock), lock free at quiescence; under the explicit '
-                      'hypothesis that no create runs concurrently (partial): one object per id, same object, referenced '
-                      'objects reachable, no exception but NotFound; counter-theorems (_full_FALSE) for '
-                      'created-vs-expireAll and create-vs-get, replayed on the real code every run.')
+META['level_text'] = (
+    'Lean theorems over the interleaving model Conc (atomic action = one shared access), for EVERY schedule (List Tid), '
+    'any number of threads, any programs over get/create/expire/expireAll/cull, any cull parameters. FULL: C09_conc_inv '
+    '(lock held exactly by the thread between a miss and finishPut / inside expire, expireAll, cull; cache keys unique; '
+    'every key the holder is about to read/del is present, so no KeyError and no release of a free lock), '
+    'C09_lock_free_at_quiescence, C09_progress (no deadlock), C09_cullcount_benign. PARTIAL (decidable hypothesis '
+    'NoCreateProgs: no thread runs create, the only lock-free writer): C09_one_object_per_id, C09_same_object, '
+    'C09_same_object_as_initial, C09_referenced_reachable, C09_no_exception_but_notfound, with per-key steps of the '
+    'expireAll iteration and of cull. FALSE-witnesses (decide on concrete schedules, replayed on the real cache.py every '
+    'run): C09_referenced_reachable_full_FALSE (created vs the cache={} swap), C09_no_exception_but_notfound_full_FALSE '
+    '(created during the expireAll iteration), C09_same_object_full_FALSE (create vs get of the same row). The model is '
+    'tied to the code by running the same schedules on real threads (outcomes, final maps/lock, step-exact access trace).')
 META['level_note'] = ('Trusted: Lean kernel; the hand-written interleaving model Model/Conc.lean (compared step by step with '
                       'the real cache.py/main.py on every explored schedule); the harness scheduler/instrumentation; '
                       'CPython atomicity of one builtin-dict operation.')
